@@ -1082,6 +1082,7 @@ func runC11(c *core.Ctx) core.Meta {
 	checkFieldStoredFresh(c, "R11.21", "the staging bytes of a device-to-host copy belong to its command: every store into MemCopyD2HCommand.RawData stores storage allocated by that call - the per-page destination buffers of the DMA requests are windows of it, so a staging buffer kept by the middleware is shared by every copy in flight and each is decoded from whatever was written last", 1, driverPkg, "MemCopyD2HCommand.RawData")
 	checkNotRunningThenDequeued(c, "R11.22")
 	checkBufferRecordInBytes(c)
+	checkScanNotLeftByBreak(c, "R11.24", "DMAEngine.removeReqFromPendingReqList looks at every pending request until it finds the one that was answered: its walk over pendingReqs is left at the end or by the return of the match, never by a break. Memory answers the pieces of one copy in any order; a walk that stops at the first non-match finds only the oldest request, and an overtaking answer panics the engine with the copy half done", cpPkg, "DMAEngine.removeReqFromPendingReqList", "pendingReqs")
 	return core.Meta{Level: "other",
 		Explanation: "Structural clauses of host-device copies decided on SSA of amd/driver, amd/timing/cp (CP middleware + DMA engine) and the emulator's storage accessor: the overlap predicate over all 75 weak orderings (order-domain abstract interpretation), completion only on an empty outstanding list / finished collection, the six splitting loops (min(remaining, unit remainder), same step for all cursors, slice and size = chunk), piece addressing through the page found for the address, SEND-DISCIPLINE of DMA/CP/driver send stages, clone FIELDS, flush-before-copy ordering.",
 		NotDecided:  "byte equality of copied data for every offset/length (arithmetic over runtime values); cache flush effectiveness; zero-length copies",
